@@ -517,6 +517,16 @@ pub fn run(args: &Args) -> Report {
                 rep.count("whitespace_gap_cases");
             }
         }
+        for val in nested_gap_texts() {
+            for pos in [0usize, 3, 99] {
+                let mut r = FilterRender::plain(&full);
+                r.unknown = vec![Unknown { pos, key_text: b"\"meta\"".to_vec(), val_text: val.clone() }];
+                let (text, _) = render_filter(&full, &r, &mut rng);
+                let end = text.len();
+                let _ = check_in_domain(&mut rep, &text, "whitespace-in-unknown-member", end);
+                rep.count("whitespace_gap_cases_inside_unknown_members");
+            }
+        }
         // empty lists and empty object
         for t in ["{}", "{\"ids\":[]}", "{\"authors\":[],\"kinds\":[]}", "{\"#e\":[]}", "{\"#e\":[],\"#p\":[\"x\"]}", " { } ", "{\"kinds\":[ ]}"] {
             let text = t.as_bytes();
